@@ -76,6 +76,38 @@ def sig(tj):
     return tj.get('txt', k)
 
 
+def _mentions(j, l):
+    """number of places/operands in the JSON value `j` whose base local is `l`"""
+    if isinstance(j, dict):
+        n = 1 if j.get('l') == l and 'p' in j else 0
+        return n + sum(_mentions(v, l) for v in j.values())
+    if isinstance(j, list):
+        return sum(_mentions(v, l) for v in j)
+    return 0
+
+
+def _only_len_uses(f, lhs):
+    """the raw pointer is stored in a bare local whose every other mention is `PtrMetadata(move _l)`"""
+    if lhs['p']:
+        return False
+    l = lhs['l']
+    uses = lens = 0
+    for b in f.blocks:
+        for st in b['stmts']:
+            m = _mentions(st, l)
+            if not m:
+                continue
+            if st['k'] == 'assign' and st['lhs']['l'] == l and not st['lhs']['p'] and st['rv']['k'] == 'rawptr':
+                m -= 1
+            elif st['k'] == 'assign' and st['rv']['k'] == 'un' and st['rv']['op'] == 'PtrMetadata':
+                lens += 1
+                m -= 1
+            uses += m
+        uses += _mentions(b.get('term'), l)
+    return uses == 0 and lens >= 1
+
+
+
 def walk_types(fx, root):
     """yield (path, node) for every sharing node reachable from the fields of `root`"""
     seen_adts = set()
@@ -226,6 +258,7 @@ def run(rep, facts, tier):
 
     # ---------- R2
     n_alias = 0
+    n_lenptr = 0
     for fn in sorted(fx.fns):
         f = fx.fns[fn]
         if fn.startswith('c_api::'):
@@ -249,12 +282,18 @@ def run(rep, facts, tier):
                     continue
                 rv = st['rv']
                 raw = rv['k'] == 'rawptr' or (rv['k'] == 'cast' and f.ty(rv['to']).startswith('*mut') and 'PtrToPtr' in rv['ck'])
+                if raw and rv['k'] == 'rawptr' and not rv.get('mut') and _only_len_uses(f, st['lhs']):
+                    # `&raw const *slice` that MIR building emits to read a slice's length for a bounds check:
+                    # the pointer is consumed by PtrMetadata and nothing else, so nothing can be written through it
+                    n_lenptr += 1
+                    continue
                 if raw:
                     ok = fn == 'file::fs_overlay::load_binary'
                     rep.add('C03.R2', 'C03.R2:rawptr:%s' % fn, ok, 'mmap pointer (reviewed)' if ok else
                             '%s creates a raw pointer (%s): writes through it bypass the copy-on-write check' % (short(fn), f.ty(st['lhs']['t'])),
                             fn, st.get('at'))
     rep.floor('C03.R2 alias-producing call sites', n_alias, 4)
+    rep.note('C03.R2: %d length-only raw-const pointers (consumed by PtrMetadata alone) not counted as raw views' % n_lenptr)
     # data_mut really goes through make_mut then to_mut
     dm = fx.need('bitstr::Bitstr::data_mut')
     s0 = expr_str(dm.expr_of_local(0), -20)
